@@ -283,7 +283,23 @@ def _run_check(mod, tier, seed, only_replay=None):
     reg.extra["replayed"] = reg.evaluations
     stats_parts.append(reg.to_json())
 
-    # 2. generated search
+    # 2. generated search (every build variant the module uses is built first: the time budget of the search is for
+    # searching, not for compiling on a fresh checkout)
+    try:
+        import inspect
+        import re as _re
+        from . import build as _build
+        src = inspect.getsource(mod)
+        wanted = {"asan"} | set(_re.findall(r'variant\s*=\s*"(\w+)"', src)) | set(_re.findall(r'build\.ensure\("(\w+)"\)', src))
+        if "heap=True" in src:
+            wanted.add("plain")
+        for v in sorted(wanted):
+            if v in _build.VARIANTS:
+                _build.ensure(v)
+    except SystemExit:
+        raise
+    except Exception:
+        pass
     b = mod.BUDGET[tier]
     workers = b.get("workers", 8)
     tmpd = os.path.join(VERIF, "build", "tmp")
